@@ -341,6 +341,86 @@ func c07AcrossVersion(kind, flushMode string, dotu bool, maxpend, P int) Scenari
 	return vsScenario(&VsSpec{Name: name, Body: body, Check: check, P: P})
 }
 
+// c07AuthReadReuse: a read on an authentication fid is waiting inside AuthRead when it
+// is flushed and the implementation cancels it; the Rflush arrives and the client uses
+// the tag again at once (with a slow reader, so that the new reply waits behind the
+// writer); only then does the cancelled AuthRead return. The new request gets its own,
+// intact reply.
+func c07AuthReadReuse(next string, dotu bool, maxpend, P int) Scenario {
+	var s *sess
+	var nm *wire.Msg
+	name := fmt.Sprintf("flush auth-read cancelled, tag reused for %s before the read returns maxpend=%d dotu=%v", next, maxpend, dotu)
+	body := func() {
+		s = newSess(SrvOpt{Msize: 256, Dotu: dotu, Maxpend: maxpend, Flush: true, Auth: true})
+		s.fs.FlushMode = "cancel"
+		s.fs.CancelAuthIO = true
+		if r := s.c.Rpc(&wire.Msg{Type: wire.Tauth, Tag: s.tag(), Afid: 70, Uname: "glenda", NUname: 7, HasNUname: dotu}); r == nil || r.Type != wire.Rauth {
+			vs.Fail("setup: Tauth answered by %v", r)
+		}
+		nm = s.prepare(next, 31, 100)
+		if next == "stat" {
+			s.fs.Script[reqKey{0, 100, 0}] = &Action{StatName: "the-new-request"}
+		}
+		gate := vs.NewSem(0)
+		s.fs.AuthReadGate = gate
+		s.setupN = len(s.c.Collect())
+		vs.Window(true)
+		s.c.Send(dotu, &wire.Msg{Type: wire.Tread, Tag: 100, Fid: 70, Count: 64})
+		vs.Idle()
+		s.c.Send(dotu, &wire.Msg{Type: wire.Tflush, Tag: 101, Oldtag: 100})
+		vs.Idle()
+		s.c.SrvEnd.StallOutgoing()
+		s.c.Send(dotu, nm)
+		vs.Idle()
+		gate.Release()
+		vs.Idle()
+		s.c.SrvEnd.UnstallOutgoing()
+		vs.Idle()
+		vs.Window(false)
+		s.c.Collect()
+	}
+	check := stdCheck("C07", func(x *vs.Exec) *Viol {
+		frames := s.c.Frames[s.setupN:]
+		detail := map[string]any{"wire": strings.Split(framesString(frames), "\n"), "fslog": strings.Split(s.fs.logString(), "\n")}
+		rflush, n100 := -1, 0
+		for i, f := range frames {
+			if f.Msg == nil {
+				return &Viol{Sig: "C07/malformed-frame/auth-read-reuse", Msg: "a reply does not parse: " + f.Err + "\n" + framesString(frames), Detail: detail}
+			}
+			if f.Msg.Tag == 101 {
+				rflush = i
+			}
+		}
+		if rflush < 0 {
+			return &Viol{Sig: "C07/rflush-count-0/auth-read-reuse", Msg: "the Tflush was never answered\n" + framesString(frames), Detail: detail}
+		}
+		for i, f := range frames {
+			if f.Msg.Tag != 100 {
+				continue
+			}
+			if i < rflush {
+				continue // the flushed read was answered after all, before its Rflush: allowed
+			}
+			n100++
+			got := renderReply(f.Msg)
+			ok := false
+			for _, r := range s.fs.resps(0, 100, 0) {
+				if r.Reply == got {
+					ok = true
+				}
+			}
+			if !ok {
+				return &Viol{Sig: "C07/tag-reused-after-rflush-gets-wrong-reply", Msg: fmt.Sprintf("the tag of a cancelled read on an authentication fid was used again after its Rflush; the new request %s was answered with %q, which is not what the implementation produced for it\n%s", nm, got, framesString(frames)), Detail: detail}
+			}
+		}
+		if n100 != 1 {
+			return &Viol{Sig: fmt.Sprintf("C07/reply-count-%d/auth-read-reuse", n100), Msg: fmt.Sprintf("the request re-using the tag got %d replies after the Rflush\n%s", n100, framesString(frames)), Detail: detail}
+		}
+		return nil
+	}, nil)
+	return vsScenario(&VsSpec{Name: name, Body: body, Check: check, P: P})
+}
+
 func c07Scenarios(tier string) []Scenario {
 	var out []Scenario
 	add := func(p c07Params) { out = append(out, c07Scenario(p)) }
@@ -371,6 +451,7 @@ func c07Scenarios(tier string) []Scenario {
 			add(c07Params{Kind: k, Stage: "twoflush", FlushMode: "ignore", Gated: true, Rel: "free", Maxpend: mp, Dotu: dotu, P: 2})
 		}
 	}
+	out = append(out, c07AuthReadReuse("stat", true, 0, 1), c07AuthReadReuse("read", false, 2, 1))
 	out = append(out, c07AcrossVersion("read", "none", false, 0, 2), c07AcrossVersion("walk", "cancel", true, 2, 2), c07AcrossVersion("stat", "ignore", true, 1, 2))
 	for _, k := range []string{"read", "walk"} {
 		add(c07Params{Kind: k, Stage: "afterreply", FlushMode: "none", P: P})
@@ -401,7 +482,7 @@ func c07Scenarios(tier string) []Scenario {
 func init() {
 	register(&Property{ID: "C07", Level: "model_checking",
 		Technique: "stateless model checking of the real server under a controlled scheduler (all schedules within a preemption bound)",
-		Rule:      "every schedule with at most P preemptions of the server goroutines, scripted implementation and releaser, per scenario (target kind x flush stage x FlushOp behaviour x gated/immediate x release timing x Maxpend x dialect; also with the target carrying tag 0xFFFF; a flush of a tag re-used after a Tversion in mid-session); after quiescence sequential probes (fid state, tag reuse); distinct = distinct per-object operation orders",
+		Rule:      "every schedule with at most P preemptions of the server goroutines, scripted implementation and releaser, per scenario (target kind x flush stage x FlushOp behaviour x gated/immediate x release timing x Maxpend x dialect; also with the target carrying tag 0xFFFF; a flush of a tag re-used after a Tversion in mid-session; a cancelled read on an authentication fid whose tag is used again before AuthRead returns); after quiescence sequential probes (fid state, tag reuse); distinct = distinct per-object operation orders",
 		Assumptions: []string{"code between two synchronisation operations is atomic (race-free executions)", "transport modelled as an unbounded reliable byte queue", "the reply buffer the target receives last carried the matching R-type (warm-up request of the same kind)"},
 		Scenarios:   c07Scenarios, QuickS: 110, ThoroughS: 1700})
 }
